@@ -419,9 +419,17 @@ finished:
 		c.resync()
 		return
 	}
+	oldID := c.contract.ID
 	c.mine(1)
 	c.refreshPrices()
 	c.contract = got
+	// the renewed contract, as long as the host still reports it, keeps roots
+	// that match the revision it reports
+	if old, oerr := c.hostState(oldID); oerr == nil {
+		if err := rootsMatchRevision(old); err != nil {
+			e.Violationf("C09.roots-match-revision", op+":old-contract", "after %s was confirmed, the host's state of the old contract: %v", op, err)
+		}
+	}
 	after, err := c.hostState(got.ID)
 	if err != nil {
 		e.Violationf("C09.host-state", "renewed", "cannot read the host's state of the contract made by %s: %v", op, err)
